@@ -161,6 +161,12 @@ class SccContext:
 
   def backspace(self):
     """Move the cursors in a column to the left"""
+    caption = self.get_caption_to_process()
+
+    if caption is None or caption.get_current_line() is None:
+      # nothing to erase
+      return
+
     self.get_caption_to_process().get_current_line().backspace()
     (row, indent) = self.get_caption_to_process().get_cursor()
     self.get_caption_to_process().set_cursor_at(row, max(indent - 1, 0))
